@@ -86,11 +86,15 @@ Finish ==
            okRes == /\ inex \/ res = exact
                     /\ e.res.has => (inex \/ (e.res.equalsExact /\ gres = exact))
                     /\ e.hasEqn => (e.eqn = IsZero(res.k))
-           ok    == d = 0 /\ okRes /\ (e.expectExact => ~inex)
+           \* C17 is about the RESULT (the sum is exact); the individual heap steps are the model's view of one admissible
+           \* implementation, so a difference in the steps alone is reported as a NOTE
+           ok    == okRes /\ (e.expectExact => ~inex)
        IN  PrintT(<<"EV", idx, e.id, IF ok THEN "ok" ELSE "MISMATCH",
                     IF ok THEN <<Len(hevs)>>
                     ELSE <<"firstdiff", d, IF d > 0 /\ d <= Len(hevs) THEN hevs[d] ELSE "-", IF d > 0 /\ d <= Len(got) THEN got[d] ELSE "-",
                            "res", okRes, "inexact", inex, "steps", Len(hevs), Len(got)>>>>)
+    /\ LET got == [k \in 1..Len(Tr[idx].hevs) |-> <<Tr[idx].hevs[k][1], Tr[idx].hevs[k][2], Tr[idx].hevs[k][3], Tr[idx].hevs[k][4], Tr[idx].hevs[k][5]>>]
+       IN  FirstDiff(hevs, got, 1) = 0 \/ PrintT(<<"NOTE", idx, "Bos-Coster steps differ from BosCoster.tla at", FirstDiff(hevs, got, 1)>>)
     /\ pc' = "checked"
     /\ UNCHANGED <<scalars, points, heap, size, limbSize, extended, count, max1, max2, hevs, res, idx>>
 
